@@ -2205,6 +2205,8 @@ def _run2(run, quick, root, pool, cpool, xpool, cases, cands):
     if not ncalls or not nsec_edges:
         if not run.violations:
             raise MachineryError("nothing was replayed")
+    ndet = detached_closures(run)
+    run.cov["detached_closures"] = ndet
     nobs = sum(1 for e in events if e["op"] == "obs")
     run.cov["traces_validated_against_impl"] = nsec_edges + len(gate_results) + len(call_results) + nreq + ncli
     run.cov["evaluations"] = nact + len(gate_results) + ncalls + nreq + ncli + \
@@ -2256,7 +2258,74 @@ def _run2(run, quick, root, pool, cpool, xpool, cases, cands):
 
 
 # --------------------------------------------------------------------------
+# ---------------------------------------------------------------------------------------------------------------
+# function values that outlive the call they were made in.  A host may run a program in an environment of its own
+# (`interpret(src, name, environment)`, what the repository's tests do): that environment hangs under the interpreter
+# for the duration of the call only.  A closure made there and called later - by the host rendering the result
+# (`_str_`), or by a later program that finds it in a list of the base environment - still belongs to a program of
+# a secure interpreter: it binds none of the gated natives and touches no file.
+DETACHED_USES = {
+    # (the detached environment holds nothing: the closure binds every native it uses through the binder it kept)
+    "read": "do bn('file_input'); bn('read_all'); def i = file_input(SECRET); read_all(i) end",
+    "read_alias": "do bn('file_input', 'fi'); bn('read_all', 'ra'); ra(fi(SECRET)) end",
+    "write": "do bn('file_output'); bn('println'); bn('close'); bn('add'); def o = file_output(OUT + '/written.txt'); println('x', o); close(o); 'w' end",
+    "mkdir": "do bn('make_dir'); bn('add'); make_dir(OUT + '/newdir'); 'm' end",
+    "list": "do bn('list_dir'); bn('string'); string(list_dir(OUT)) end",
+    "exec": "do bn('execute'); bn('add'); execute('touch', [OUT + '/spawned.txt']); 'e' end",
+}
+
+
+def detached_closures(run):
+    import shutil
+    from ckl.interpreter import Interpreter
+    from ckl.functions import get_none_environment
+    from ckl.values import ValueString
+    root = tempfile.mkdtemp(prefix="c09-detached-")
+    n = 0
+    try:
+        secret = os.path.join(root, "secret.txt")
+        out = os.path.join(root, "out")
+        os.mkdir(out)
+        with open(secret, "w") as f:
+            f.write("canary-detached-secret")
+        for legacy in (False, True):
+            for name, body in sorted(DETACHED_USES.items()):
+                for how in ("render", "later-program"):
+                    it = Interpreter(True, legacy)
+                    env = get_none_environment()
+                    env.put("SECRET", ValueString(secret))
+                    env.put("OUT", ValueString(out))
+                    pre = ("def bn = bind_native; def stdin = stdin; def stdout = stdout; def SECRET = SECRET; def OUT = OUT; "
+                           f"def leak = fn() {body}; ")
+                    text = ""
+                    try:
+                        if how == "render":
+                            v = it.interpret(pre + "<*_str_ = fn(self) leak()*>", "c09", env)
+                            text = str(v)
+                        else:
+                            it.interpret(pre + "append(checkerlang_module_path, leak); 0", "c09", env)
+                            text = str(it.interpret("checkerlang_module_path[-1]()", "c09"))
+                    except Exception as e:  # noqa: BLE001 - a refusal of any kind is what the property asks for
+                        text = "refused: " + type(e).__name__
+                    n += 1
+                    left = sorted(os.listdir(out))
+                    if "canary-detached-secret" in text or left or (name == "list" and not text.startswith("refused")):
+                        run.violation(f"detached:{'legacy' if legacy else 'base'}:{name}:{how}",
+                                      f"secure-gate-open: a closure made in a caller-supplied environment and called after that call "
+                                      f"({how}) used {name}: result {text[:80]!r}, files created {left}",
+                                      {"kind": "detached"})
+                        for fn_ in left:
+                            pth = os.path.join(out, fn_)
+                            shutil.rmtree(pth) if os.path.isdir(pth) else os.remove(pth)
+    finally:
+        shutil.rmtree(root, ignore_errors=True)
+    return n
+
+
 def replay(run, case):
+    if case.get("kind") == "detached":
+        detached_closures(run)
+        return
     root = tempfile.mkdtemp(prefix="c09-root-")
     try:
         cases, _res = load_cases()
